@@ -515,7 +515,7 @@ class Ops(object):
             return sorted(v, key=repr)
         if isinstance(v, SObj):
             c, m = v.cls.find_method('__iter__')
-            if m is not None:
+            if m is not None and not any(isinstance(n, (ast.Yield, ast.YieldFrom)) for n in ast.walk(m)):
                 return self.iter_view(it, it.call_method(v, '__iter__', []))
             c, m = v.cls.find_method('__getitem__')
             c2, m2 = v.cls.find_method('__len__')
@@ -763,9 +763,20 @@ class Ops(object):
             ca, ma = a.cls.find_method(rev)
             if mb is not None and mb is not ma:
                 order.reverse()
+        else:
+            h = self.world.hooks.get('right_first')
+            if h is not None and h(it, a, b, rev):
+                order.reverse()
         for (x, meth, y) in order:
             if isinstance(x, SObj):
                 c, m = x.cls.find_method(meth)
+                hb = self.world.hooks.get('builtin_base_method')
+                if m is None and hb is not None:
+                    r = hb(it, x, meth, y)        # method inherited from a builtin base class (str.__ne__, ...)
+                    if r is not None:
+                        if r is not NotImpl:
+                            return r
+                        continue
                 if m is None and meth == '__ne__':
                     c2, m2 = x.cls.find_method('__eq__')
                     if m2 is not None:
@@ -811,7 +822,7 @@ class Ops(object):
                 return False
             raise OutOfSubset('identity of %r and %r' % (a, b))
         if isinstance(a, (SInt, SBool)) or isinstance(b, (SInt, SBool)):
-            if a is None or b is None:
+            if a is None or b is None or a is NotImplemented or b is NotImplemented:
                 return False
             raise OutOfSubset('identity test on symbolic scalars')
         if isinstance(a, (int, str, bool, type(None), tuple)) and not has_sym(a) and not has_sym(b) and type(a) is type(b):
